@@ -44,7 +44,7 @@ COMPONENTS = {
              'asyncio futures and tasks (C future class captured by plumpy at import, pure-Python class from the loop)'],
     'stub': ['event loop -> SimLoop', 'communicator thread -> the environment completing futures between loop handles'],
 }
-ASSUMPTIONS = ['a coroutine cancelled under create_task is outside the statement and not generated']
+ASSUMPTIONS = ['the task that create_task makes is not cancelled from outside (a computation cancelled from within is generated)']
 EXPECTED_COUNTERS = ['create_task:from_communicator_thread', 'loop_comm:loop_thread_runs_first', 'adapter:loop_comm', 'adapter:plum_kiwi', 'adapter:kiwi', 'adapter:rpc_reply', 'adapter:create_task', 'adapter:action',
                      'probe:inner_before_outer', 'outcome:value', 'outcome:exc', 'outcome:cancel', 'depth:1', 'depth:2',
                      'depth:3', 'depth:4', 'futures:loop_created', 'futures:plumpy_class']
@@ -72,6 +72,7 @@ def systematic(tier):
                                               'order': list(order), 'gaps': [gap] * (level + 1), 'future_kind': kind})
     for inner in ('value', 'cancel'):
         cases.append({'adapter': 'create_task', 'awaits': [0], 'outcome': 'future', 'inner': inner, 'others': 1})
+    cases.append({'adapter': 'create_task', 'awaits': [0], 'outcome': 'cancelled', 'others': 1})
     for outcome in ('value', 'exc', 'factory_raises'):
         cases.append({'adapter': 'create_task', 'awaits': [0, 1], 'outcome': outcome, 'others': 1})
         cases.append({'adapter': 'create_task', 'awaits': [0, 1], 'outcome': outcome, 'others': 1, 'from_thread': True})
@@ -100,7 +101,7 @@ def random_case(rng, tier):
                                                              'run_raises_twice', 'run_interrupted_twice'])}
     if adapter == 'create_task':
         return {'adapter': 'create_task', 'awaits': [rng.choice([0, 0.5, 1]) for _ in range(rng.randint(0, 3))],
-                'outcome': rng.choice(['value', 'value', 'exc', 'factory_raises', 'future']), 'inner': rng.choice(['value', 'cancel']),
+                'outcome': rng.choice(['value', 'value', 'exc', 'factory_raises', 'future', 'cancelled']), 'inner': rng.choice(['value', 'cancel']),
                 'others': rng.randint(0, 2),
                 'from_thread': rng.random() < 0.4, 'default_loop': rng.random() < 0.25}
     depth = rng.randint(1, 4)
@@ -292,6 +293,11 @@ def _run_create_task(case, plumpy, loop, result, events):
             events.append(('coro', 'woke', loop.time()))
         if case['outcome'] == 'exc':
             raise boom
+        if case['outcome'] == 'cancelled':
+            # the computation is cancelled from the inside: it awaits something that gets cancelled (asyncio.CancelledError)
+            doomed = loop.create_future()
+            loop.call_later(0.25, doomed.cancel)
+            await doomed
         if case['outcome'] == 'future':
             # the coroutine's result is itself a loop future (it completes, or is cancelled, later): a value like any other
             inner = loop.create_future()
@@ -350,6 +356,11 @@ def _run_create_task(case, plumpy, loop, result, events):
     events.append(('final', got[0]))
     if calls[0] != 1:
         result.violate('wrong_outcome', 'create_task:calls', f'the coroutine function was called {calls[0]} times')
+    if case['outcome'] == 'cancelled':
+        if not future.cancelled():
+            result.violate('wrong_outcome' if future.done() else 'not_completed', 'create_task:cancelled',
+                           f'the scheduled computation was cancelled; the future of create_task ended with {got!r}')
+        return
     if case['outcome'] == 'future':
         if not (future.done() and not future.cancelled() and future.exception() is None and inner_box
                 and future.result() is inner_box[0]):
